@@ -59,7 +59,9 @@ def escape_info(p: Project, modname: str, call: ast.Call) -> Optional[Tuple[str,
 
 # --------------------------------------------------------------------------
 def l_r1_decimal(p: Project, rep: Report):
-    rep.rule("L-R1", "the decimal.Decimal writer returns a fixed-point rendering (format(v,'f') / f'{v:f}' / '{:f}'.format(v)) and every path to that return is dominated by a refusal of non-finite values (is_finite / is_nan / is_infinite guard that raises)")
+    rep.rule("L-R1", "on every returning path of the decimal.Decimal writer the returned text is a fixed-point rendering (format(v,'f') / f'{v:f}' / '{:f}'.format(v)) and the path conditions imply that the value is finite (is_finite true / is_nan and is_infinite false)")
+    from . import paths as PT
+
     scal, _ = scalar_types(p)
     ci = scal["Decimal"]
     unc = D.family(ci, "unconvert")
@@ -67,22 +69,23 @@ def l_r1_decimal(p: Project, rep: Report):
     if h is None:
         rep.check("L-R1", "Decimal.unconvert[decimal.Decimal]", False, "no writer registered for decimal.Decimal", tloc(p, ci.node))
         return
-    flow = Flow(h.fn)
     vp = h.value_param()
-    rets = flow.return_nodes()
+    rps, _ = h.return_paths()
     good = {f"format({vp}, 'f')", f"'{{:f}}'.format({vp})", f"f'{{{vp}:f}}'", f"format({vp}, 'F')"}
-    for i, rn in enumerate(rets):
-        vals = [text(v) for v in resolve_values(rn.stmt.value, rn, flow.reach)] if rn.stmt.value is not None else []
-        ok = bool(vals) and all(v in good for v in vals)
-        rep.check("L-R1", f"Decimal.unconvert:return#{i}:fixed-point", ok, f"amounts are written as {vals}; str()/repr()/'g' produce exponent notation for values such as Decimal('1E+2') and the text NaN/Infinity" if not ok else "", tloc(p, rn.stmt))
-    guards = []
-    for n in flow.cfg.nodes:
-        if n.kind == "test" and any(isinstance(s, ast.Raise) for s in n.stmt.body):
-            t = text(norm(n.stmt.test))
-            if t in (f"not {vp}.is_finite()", f"{vp}.is_nan() or {vp}.is_infinite()", f"{vp}.is_infinite() or {vp}.is_nan()"):
-                guards.append(n.id)
-    ok = bool(guards) and bool(rets) and flow.cfg.must_pass_through([r.id for r in rets], guards)
-    rep.check("L-R1", "Decimal.unconvert:refuses-non-finite", ok, "NaN / Infinity can reach the wire: no raising is_finite()/is_nan() guard dominates the return" if not ok else "", tloc(p, h.fn))
+    finite = PT.any_of(PT.atom(f"bool({vp}.is_finite())"), Cond_and(PT.atom(f"bool({vp}.is_nan())", False), PT.atom(f"bool({vp}.is_infinite())", False)))
+    for i, (pth, rtxt, sc) in enumerate(rps):
+        ok = rtxt in good
+        rep.check("L-R1", f"Decimal.unconvert:return#{i}:fixed-point", ok, f"amounts are written as {rtxt[:60]}; str()/repr()/'g' produce exponent notation for values such as Decimal('1E+2') or 1E-7 and the text NaN/Infinity" if not ok else "", tloc(p, h.fn))
+        imp = PT.implies(pth.conds, finite)
+        rep.check("L-R1", f"Decimal.unconvert:return#{i}:refuses-non-finite", imp is not False, "NaN / Infinity can reach the wire: this returning path does not establish that the value is finite" if imp is False else "", tloc(p, h.fn))
+    if not rps:
+        rep.check("L-R1", "Decimal.unconvert:returns", False, "the decimal writer never returns", tloc(p, h.fn))
+
+
+def Cond_and(*cs):
+    from .paths import Cond
+
+    return Cond("and", list(cs))
 
 
 def _escaped(p, modname, node, fn) -> Optional[Tuple[str, Set[str]]]:
@@ -146,31 +149,39 @@ def l_r2_escaping(p: Project, rep: Report, rule="L-R2", reader_decodable=False):
 def l_r3_shapes(p: Project, rep: Report):
     rep.rule("L-R3", "Bool writes through the inverse of the mapping it reads with; Integer writes str() of a value that passed enforce_length; DateTime/Time write only format_datetime(<fixed format>, value), whose result is strftime(fmt) + '.' + 3-digit milliseconds + '[' offset ']'")
     scal, _ = scalar_types(p)
-    # Bool
     b = scal["Bool"]
     unc = D.family(b, "unconvert")
     h = unc.get("bool")
     ok = False
     if h is not None:
-        rets = [r for r in own_nodes(h.fn) if isinstance(r, ast.Return) and r.value is not None]
         vp = h.value_param()
-        ok = bool(rets) and all(isinstance(r.value, ast.Subscript) and isinstance(r.value.value, ast.DictComp) and text(r.value.slice) == vp and text(r.value.value.generators[0].iter) == "self.mapping.items()" and _inverts(r.value.value) for r in rets)
+        rps, _ = h.return_paths()
+        ok = bool(rps)
+        for pth, rtxt, sc in rps:
+            try:
+                e = ast.parse(rtxt, mode="eval").body
+            except SyntaxError:
+                ok = False
+                continue
+            good = isinstance(e, ast.Subscript) and isinstance(e.value, ast.DictComp) and text(e.slice) == vp and text(e.value.generators[0].iter) == "self.mapping.items()" and _inverts(e.value)
+            if not good:
+                ok = False
     rep.check("L-R3", "Bool.unconvert[bool]:inverse-of-mapping", ok, "the boolean writer is not the inverse of self.mapping" if not ok else "", tloc(p, h.fn if h else b.node))
-    # Integer
     i = scal["Integer"]
     h = D.family(i, "unconvert").get("int")
     if h is not None:
-        flow = Flow(h.fn)
-        for k, rn in enumerate(flow.return_nodes()):
-            v = rn.stmt.value
-            shape = isinstance(v, ast.Call) and isinstance(v.func, ast.Name) and v.func.id == "str" and len(v.args) == 1
-            ok2, why = passes_through(i, h.cls, h.fn, v, rn, flow, {"enforce_length"})
-            rep.check("L-R3", f"Integer.unconvert[int]:return#{k}", shape and ok2, f"integers are written as {text(v) if v is not None else None} ({why})" if not (shape and ok2) else "", tloc(p, rn.stmt))
+        rps, _ = h.return_paths()
+        for k, (pth, rtxt, sc) in enumerate(rps):
+            ok = rtxt.startswith("str(") and "self.enforce_length(" in rtxt
+            rep.check("L-R3", f"Integer.unconvert[int]:return#{k}", ok, f"integers are written as {rtxt[:60]}; expected str(<value that passed enforce_length>)" if not ok else "", tloc(p, h.fn))
     l_r3_datetime(p, rep)
 
 
 def l_r3_datetime(p: Project, rep: Report):
     rep.rule("L-R3", "Bool writes through the inverse of the mapping it reads with; Integer writes str() of a value that passed enforce_length; DateTime/Time write only format_datetime(<fixed format>, value), whose result is strftime(fmt) + '.' + 3-digit milliseconds + '[' offset ']'")
+    from . import canon
+    from .flat import flat
+
     scal, _ = scalar_types(p)
     for name, fmt in (("DateTime", "%Y%m%d%H%M%S"), ("Time", "%H%M%S")):
         ci = scal[name]
@@ -178,27 +189,35 @@ def l_r3_datetime(p: Project, rep: Report):
         h = D.family(ci, "unconvert").handler_for_native(nk)
         if h is None:
             continue
-        flow = Flow(h.fn)
-        for k, rn in enumerate(flow.return_nodes()):
-            v = rn.stmt.value
-            ok = isinstance(v, ast.Call) and isinstance(v.func, ast.Name) and v.func.id == "format_datetime" and len(v.args) == 2 and isinstance(v.args[0], ast.Constant) and v.args[0].value == fmt
-            rep.check("L-R3", f"{name}.unconvert[{nk}]:return#{k}", ok, f"{name} is written as {text(v) if v is not None else None}; expected format_datetime('{fmt}', <value>)" if not ok else "", tloc(p, rn.stmt))
-    fd = p.get_function(TYPES, "format_datetime").node
-    rets = [r for r in own_nodes(fd) if isinstance(r, ast.Return)]
-    fparams = params_of(fd)
-    for k, r in enumerate(rets):
-        v = r.value
-        ok = False
-        why = f"returns {text(v) if v is not None else None}"
+        rps, _ = h.return_paths()
+        for k, (pth, rtxt, sc) in enumerate(rps):
+            ok = rtxt.startswith(f"format_datetime('{fmt}', ")
+            rep.check("L-R3", f"{name}.unconvert[{nk}]:return#{k}", ok, f"{name} is written as {rtxt[:70]}; expected format_datetime('{fmt}', <value>)" if not ok else "", tloc(p, h.fn))
+    fd0 = p.get_function(TYPES, "format_datetime").node
+    fd = canon.formats_to_fstrings(flat(p, TYPES, fd0))
+    from .paths import return_paths
+
+    rps, _ = return_paths(fd, expander=Expander(fd))
+    fparams = params_of(fd0)
+    for k, (pth, rtxt, sc) in enumerate(rps):
+        ok, why = None, f"returns {rtxt[:90]}"
+        try:
+            v = ast.parse(rtxt, mode="eval").body
+        except SyntaxError:
+            v = None
         if isinstance(v, ast.JoinedStr):
-            consts = [x.value for x in v.values if isinstance(x, ast.Constant)]
+            consts = "".join(x.value for x in v.values if isinstance(x, ast.Constant))
             fvs = [x for x in v.values if isinstance(x, ast.FormattedValue)]
-            if consts == [".", "[", "]"] and len(fvs) == 3:
-                spec = text(fvs[1].format_spec) if fvs[1].format_spec is not None else ""
-                first = text(fvs[0].value)
-                ok = "03d" in spec and first.endswith(f".strftime({fparams[0]})")
-                why = f"milliseconds format {spec!r}, date part {first}"
-        rep.check("L-R3", f"format_datetime:return#{k}:shape", ok, why if not ok else "", tloc(p, r))
+            # date part, '.', ms (03d), '[', offset..., ']'
+            if consts.startswith(".[") or (consts[:1] == "." and "[" in consts and consts.endswith("]")):
+                spec = text(fvs[1].format_spec) if len(fvs) > 1 and fvs[1].format_spec is not None else ""
+                first = text(fvs[0].value) if fvs else ""
+                ok = "03d" in spec and f".strftime({fparams[0]})" in first
+                why = f"milliseconds format {spec!r}, date part {first[:50]}"
+        if ok is None:
+            rep.note(f"L-R3 undecided: format_datetime returns {rtxt[:80]}")
+        else:
+            rep.check("L-R3", f"format_datetime:return#{k}:shape", ok, why if not ok else "", tloc(p, fd0))
 
 
 def _inverts(dc: ast.DictComp) -> bool:
